@@ -1,6 +1,8 @@
 SPECIFICATION Spec
 CONSTANTS
   MaxOps = 9
+  UnitKinds = {"set32", "set64", "getp"}
+  MaxPos = 3
 INVARIANTS
   EmitCase
 CHECK_DEADLOCK FALSE
